@@ -299,6 +299,7 @@ func (ms *ModbusServer) acceptTCPClients(listener net.Listener) {
 			continue
 		}
 
+		verifYield("accepted", sock)
 		ms.lock.Lock()
 		// apply a connection limit
 		if ms.started && uint(len(ms.tcpClients)) < ms.conf.MaxClients {
@@ -309,6 +310,7 @@ func (ms *ModbusServer) acceptTCPClients(listener net.Listener) {
 			accepted = false
 		}
 		ms.lock.Unlock()
+		verifYield("decided", sock)
 
 		if accepted {
 			// spin a client handler goroutine to serve the new client
@@ -359,6 +361,7 @@ func (ms *ModbusServer) handleTCPClient(sock net.Conn) {
 	}
 
 	// once done, remove our connection from the list of active client conns
+	verifYield("finished", sock)
 	ms.lock.Lock()
 	for i := range ms.tcpClients {
 		if ms.tcpClients[i] == sock {
@@ -368,6 +371,7 @@ func (ms *ModbusServer) handleTCPClient(sock net.Conn) {
 		}
 	}
 	ms.lock.Unlock()
+	verifYield("removed", sock)
 
 	// close the connection
 	sock.Close()
